@@ -81,6 +81,13 @@ def gen(tier, rng):
     # the same calls at the Server API (recv, recv_timeout, try_recv, incoming_requests, unblock), one after the other
     for x in mqbase.gen_su(tier, rng):
         yield x
+    # time-outs above one second, woken for nothing while the remaining time is within a millisecond of a whole second
+    # (and at other moments): only the clock decides when such a call may return empty-handed (virtual time: cheap)
+    for T, at in ((1100, 995), (1100, 1000), (1100, 1004), (2500, 4996), (2500, 5000), (2500, 14990), (3000, 9999), (1001, 5)):
+        for sd in range(30 if tier == "quick" else 300):
+            steals = ",".join(["sleep%d,try" % (at if k == 0 else 3) for k in range(6)])
+            pushes = ",".join(["sleep%d,unblock" % (at if k == 0 else 3) for k in range(6)])
+            yield "mqs %d r0:timed%d|r1:%s|p0:%s" % (sd * 17 + T + at, T, steals, pushes), {"scheduled": "stolen-wakeups-long-timeout"}
     for i in range(300 if tier == "quick" else 6000):
         sc = mqbase.rand_mqs(rng, allow_unblock=True)
         for sd in range(3):
